@@ -443,6 +443,10 @@ class SpecGen:
             form = rnd.choice(('SUMIF', 'COUNTIF', 'SUMIFC', 'SUMIF3', 'SUMIF1', 'AVERAGEIF',
                                'SPCMP', 'SPCMP', 'SPLEN'))
             crit = rnd.choice(('">1"', '"<3"', '">=0"', '"<>2"', '1', 'TRUE', '"txt"'))
+            if form != 'COUNTIF':
+                # (a criteria that text can meet makes SUMIF / AVERAGEIF add text up and raise
+                # a TypeError inside pycel's library: C15, not claimed)
+                crit = rnd.choice(('">1"', '"<3"', '">=0"', '1'))
             if form == 'SUMIF':
                 return f'SUMIF({txt},{crit})', prec, []
             if form == 'COUNTIF':
